@@ -147,6 +147,14 @@ func run(prop string, def *propDef, tier, root string, seed int64, dump, noSelf,
 	for _, bc := range configs {
 		c, err := analyse(prop, def, tier, root, bc)
 		if err != nil {
+			if bc != defaultConfig && strings.Contains(err.Error(), "load/type errors") {
+				// a tagged configuration that does not build (e.g. the 32-bit lchtimes file, whose
+				// Timeval fields are int32) is not a configuration anybody runs: skip, but say so
+				msg := fmt.Sprintf("config %s skipped: does not type-check (%s)", bc.Name, firstLine(err.Error()))
+				fmt.Println("  " + msg)
+				sum.Extra["configs_skipped"] = append(asStrings(sum.Extra["configs_skipped"]), msg)
+				continue
+			}
 			fmt.Printf("CHECKER-ERROR property=%s %v\n", prop, err)
 			return 2
 		}
@@ -283,4 +291,11 @@ func firstSentence(s string) string {
 		return s[:110] + "…"
 	}
 	return s
+}
+
+func asStrings(v any) []string {
+	if s, ok := v.([]string); ok {
+		return s
+	}
+	return nil
 }
